@@ -40,6 +40,8 @@ pub enum Sem {
     Ctx,
     /// panics on demand (C20)
     Boom,
+    /// Bool -> Array(Bool) with that single element
+    Lift,
 }
 
 #[derive(Clone, Debug)]
